@@ -203,12 +203,13 @@ func sharedCode() Scenario {
 				panic(err)
 			}
 			cfg := risor.NewConfig()
-			code, err = compiler.Compile(prog, cfg.CompilerOpts()...)
+			c, err := compiler.Compile(prog, cfg.CompilerOpts()...)
 			if err != nil {
 				panic(err)
 			}
+			code = c // for After (scheduler runs call Make once per execution)
 			run := func() string {
-				v, err := risor.EvalCode(context.Background(), code)
+				v, err := risor.EvalCode(context.Background(), c)
 				if err != nil {
 					return "error: " + err.Error()
 				}
